@@ -2,7 +2,7 @@
    the project state is characterised by the disk (Proofs/EventsRefine.v good_proj), the saved map is the project's
    error collection, and the client view of every file is exactly what the property demands. *)
 From Coq Require Import List NArith Bool Lia Permutation Sorted PeanoNat.
-From LH Require Import Model.Diag Model.Events Spec.FreshStart Proofs.DiagProofs Proofs.EventsSets Proofs.EventsRefine Proofs.EventsTracks.
+From LH Require Import Model.Diag Model.Events Spec.FreshStart Proofs.DiagProofs Proofs.EventsSets Proofs.EventsRefine Proofs.EventsTracks Proofs.EventsBatch.
 Import ListNotations.
 Local Open Scope N_scope.
 
@@ -371,8 +371,8 @@ Section Inv.
     inv w' (vapply v (snd (act A fx w (ASave f)))).
   Proof.
     intros I Hd Hconf. cbn zeta. cbn [act]. destruct (aget (ebuf w) f) as [t|] eqn:Eb; [|intros; exact I].
-    unfold conf_action, conf_action_full, ahas in Hconf. rewrite Eb in Hconf. cbn [negb orb andb] in Hconf.
-    rewrite orb_false_r, andb_true_r in Hconf.
+    unfold conf_action, ahas in Hconf. rewrite Eb in Hconf. cbn [negb orb andb] in Hconf.
+    rewrite orb_false_r in Hconf.
     assert (Hpres : aget (disk w) f <> None) by (destruct (aget (disk w) f); [discriminate|discriminate]).
     unfold steps. cbn [fold_left fst snd step set_editor disk sv ebuf dirty app].
     rewrite did_save_eq. cbn zeta.
@@ -477,19 +477,98 @@ Section Inv.
 
   Definition item_disk (dk : amap txt) (i : witem A) : amap txt :=
     match i with WC f t | WM f t => aset dk f t | WD f => adel dk f end.
+  Definition items_disk (dk : amap txt) (l : list (witem A)) : amap txt := fold_left item_disk l dk.
+  Definition item_value (i : witem A) : option txt := match i with WC _ t | WM _ t => Some t | WD _ => None end.
 
-  Lemma act_watched_one_eq w i : aget (live (ds (sv w))) (witem_file A i) = None ->
-    act A fx w (AWatched [i]) =
-    let pc := handle_events A fx (item_disk (disk w) i) (pj (sv w)) [witem_ev A i] in
-    ({| disk := item_disk (disk w) i;
+  Lemma item_disk_get dk i g :
+    aget (item_disk dk i) g = if witem_file A i =? g then item_value i else aget dk g.
+  Proof. destruct i as [f t|f t|f]; cbn [item_disk witem_file item_value]; [apply aget_aset|apply aget_aset|apply aget_adel]. Qed.
+
+  Lemma items_disk_spec l : forall dk,
+    NoDup (map (witem_file A) l) ->
+    (forall g, ~ In g (map (witem_file A) l) -> aget (items_disk dk l) g = aget dk g) /\
+    (forall i, In i l -> aget (items_disk dk l) (witem_file A i) = item_value i).
+  Proof.
+    induction l as [|i l IH]; intros dk Hnd; [split; [reflexivity|intros i []]|].
+    cbn [map] in Hnd. apply NoDup_cons_iff in Hnd as [Hnin Hnd]. cbn [items_disk fold_left].
+    fold (items_disk (item_disk dk i) l). destruct (IH (item_disk dk i) Hnd) as [I1 I2]. split.
+    - intros g Hg. cbn [map In] in Hg. rewrite I1 by tauto. rewrite item_disk_get.
+      destruct (witem_file A i =? g) eqn:E; [|reflexivity]. apply N.eqb_eq in E. tauto.
+    - intros j [<-|Hj]; [|apply I2; exact Hj]. rewrite I1 by exact Hnin. rewrite item_disk_get, N.eqb_refl. reflexivity.
+  Qed.
+
+  (* the silent disk writes of a watched action *)
+  Lemma steps_disk l : forall (w : world A) rest ps0,
+    fold_left (fun (wp : world A * list publish) e => let '(w', ps) := step A fx (fst wp) e in (w', snd wp ++ ps))
+              (map (witem_disk A) l ++ rest) (w, ps0) =
+    fold_left (fun (wp : world A * list publish) e => let '(w', ps) := step A fx (fst wp) e in (w', snd wp ++ ps))
+              rest ({| disk := items_disk (disk w) l; sv := sv w; ebuf := ebuf w; dirty := dirty w |}, ps0).
+  Proof.
+    induction l as [|i l IH]; intros w rest ps0.
+    - cbn [map app items_disk fold_left]. destruct w. reflexivity.
+    - cbn [map app fold_left fst snd]. destruct i as [f t|f t|f]; cbn [witem_disk step fst snd];
+        rewrite app_nil_r, IH; cbn [disk sv ebuf dirty items_disk fold_left item_disk]; reflexivity.
+  Qed.
+
+  Lemma clear_fold_noop (evs : list (file * kind)) : forall d ps,
+    (forall f, In f (map fst evs) -> aget (live d) f = None) ->
+    fold_left (fun (dp : dstate * list publish) (ev : file * kind) =>
+                 let '(d', ps') := clear_change (fst dp) (fst ev) in (d', snd dp ++ ps')) evs (d, ps) = (d, ps).
+  Proof.
+    induction evs as [|ev evs IH]; intros d ps H; [reflexivity|]. cbn [fold_left fst snd].
+    unfold clear_change, ahas. rewrite (H (fst ev)) by (left; reflexivity). rewrite app_nil_r. apply IH.
+    intros f Hf. apply H. right. exact Hf.
+  Qed.
+
+  Lemma did_watched_quiet dk (s : server A) evs :
+    (forall f, In f (map fst evs) -> aget (live (ds s)) f = None) -> evs <> [] ->
+    did_watched A fx dk s evs =
+    let pc := handle_events A fx dk (pj s) evs in
+    ({| pj := fst pc; cache := cache s;
+        ds := if snd pc then fst (push_all_again (fix12a fx) (ds s) (all_errs A (fst pc))) else ds s |},
+     if snd pc then snd (push_all_again (fix12a fx) (ds s) (all_errs A (fst pc))) else []).
+  Proof.
+    intros Hl Hne. unfold did_watched. rewrite (clear_fold_noop evs (ds s) [] Hl).
+    destruct evs as [|e evs]; [congruence|]. cbn [is_nil pj cache ds].
+    destruct (handle_events A fx dk (pj s) (e :: evs)) as [p1 chg]. cbn [fst snd]. destruct chg.
+    - rewrite push_again_eq. cbn [ds pj cache app]. reflexivity.
+    - reflexivity.
+  Qed.
+
+  Lemma act_watched_eq w l :
+    (forall i, In i l -> aget (live (ds (sv w))) (witem_file A i) = None) -> l <> [] ->
+    act A fx w (AWatched l) =
+    let dk' := items_disk (disk w) l in
+    let pc := handle_events A fx dk' (pj (sv w)) (map (witem_ev A) l) in
+    ({| disk := dk';
         sv := {| pj := fst pc; cache := cache (sv w);
                  ds := if snd pc then fst (push_all_again (fix12a fx) (ds (sv w)) (all_errs A (fst pc))) else ds (sv w) |};
         ebuf := ebuf w; dirty := dirty w |},
      if snd pc then snd (push_all_again (fix12a fx) (ds (sv w)) (all_errs A (fst pc))) else []).
   Proof.
-    intros Hl. cbn [act map app]. unfold steps.
-    destruct i as [f t|f t|f]; cbn [witem_disk witem_ev witem_file item_disk fold_left fst snd step disk sv ebuf dirty app] in *;
-      rewrite (did_watched_one _ _ _ _ Hl); reflexivity.
+    intros Hl Hne. cbn [act]. unfold steps. rewrite steps_disk. cbn [fold_left fst snd step disk sv ebuf dirty].
+    rewrite did_watched_quiet.
+    - cbn zeta. reflexivity.
+    - intros f Hf. apply in_map_iff in Hf as [[f' k] [E Hf]]. cbn [fst] in E. subst f'.
+      apply in_map_iff in Hf as [i [E Hi]]. specialize (Hl i Hi). destruct i; cbn [witem_ev witem_file] in *; injection E as <- _; exact Hl.
+    - destruct l; [congruence|discriminate].
+  Qed.
+
+  Lemma fnodup_nodup l : fnodup l = true -> NoDup l.
+  Proof.
+    induction l as [|x r IH]; intros H; [constructor|]. cbn [fnodup] in H. apply andb_true_iff in H as [H1 H2].
+    constructor; [|apply IH; exact H2]. apply negb_true_iff, fmem_false in H1. exact H1.
+  Qed.
+
+  Lemma map_fst_ev l : map fst (map (witem_ev A) l) = map (witem_file A) l.
+  Proof. rewrite map_map. apply map_ext. intros [f t|f t|f]; reflexivity. Qed.
+
+  Lemma in_ev_item l f k : In (f, k) (map (witem_ev A) l) ->
+    exists i, In i l /\ witem_file A i = f /\
+              match k with KCreated => exists t, i = WC f t | KChanged => exists t, i = WM f t | KDeleted => i = WD f end.
+  Proof.
+    intros H. apply in_map_iff in H as [i [E Hi]]. exists i. split; [exact Hi|].
+    destruct i as [f0 t|f0 t|f0]; cbn [witem_ev witem_file] in *; injection E as <- <-; split; try reflexivity; eauto.
   Qed.
 
   Lemma act_watched_inv w v l :
@@ -500,42 +579,53 @@ Section Inv.
     k_stale_ref A w' = false -> k_empty_shortcut A fx w (AWatched l) = false ->
     inv w' (vapply v (snd (act A fx w (AWatched l)))).
   Proof.
-    intros I Hconf. cbn zeta. unfold conf_action in Hconf. apply andb_true_iff in Hconf as [Hconf Hlen].
-    destruct l as [|i [|i2 l2]]; [|clear Hlen|discriminate].
+    intros I Hconf. cbn zeta. unfold conf_action in Hconf. apply andb_true_iff in Hconf as [Hnd Hwm].
+    destruct l as [|i0 l0] eqn:El.
     - (* empty notification: nothing happens *)
       intros _ _ _ _ _ _. cbn [act map app]. unfold steps. cbn [fold_left fst snd step did_watched is_nil]. cbn [app vapply fold_left].
       destruct I as [Ig Is Ine Ic Io Iv]. constructor; cbn [disk sv pj ds cache ebuf dirty]; assumption.
-    - intros Hout Hlc Hun Hwd Hst Hemp.
-      set (f := witem_file A i).
-      assert (Hd : in_dir A f = true).
-      { unfold k_outside in Hout. cbn [action_files map existsb] in Hout. rewrite orb_false_r in Hout.
-        apply negb_false_iff in Hout. exact Hout. }
-      assert (Hl : aget (live (ds (sv w))) f = None).
-      { destruct (aget (live (ds (sv w))) f) as [l0|] eqn:El; [|reflexivity]. exfalso.
-        destruct (live_some_dirty w v f l0 I El) as [Hdty _].
-        unfold k_watched_dirty in Hwd. cbn [existsb] in Hwd. rewrite orb_false_r in Hwd. fold f in Hwd.
-        apply fmem_in in Hdty. rewrite Hdty in Hwd. unfold live_has, ahas in Hwd. rewrite El in Hwd. discriminate. }
-      revert Hlc Hun Hst. rewrite (act_watched_one_eq w i Hl). cbn zeta. cbn [fst snd]. intros Hlc Hun Hst.
-      set (pc := handle_events A fx (item_disk (disk w) i) (pj (sv w)) [witem_ev A i]) in *.
+    - rewrite <- El in *. assert (Hne : l <> []) by (rewrite El; discriminate). clear El i0 l0.
+      intros Hout Hlc Hun Hwd Hst Hemp.
+      apply fnodup_nodup in Hnd.
+      assert (Hdir : forall i, In i l -> in_dir A (witem_file A i) = true).
+      { intros i Hi. unfold k_outside in Hout. cbn [action_files] in Hout.
+        destruct (in_dir A (witem_file A i)) eqn:E; [reflexivity|]. exfalso.
+        assert (existsb (fun f => negb (in_dir A f)) (map (witem_file A) l) = true); [|congruence].
+        apply existsb_exists. exists (witem_file A i). split; [apply in_map; exact Hi|]. rewrite E. reflexivity. }
+      assert (Hl : forall i, In i l -> aget (live (ds (sv w))) (witem_file A i) = None).
+      { intros i Hi. destruct (aget (live (ds (sv w))) (witem_file A i)) as [l0|] eqn:E; [|reflexivity]. exfalso.
+        destruct (live_some_dirty w v _ l0 I E) as [Hdty _].
+        unfold k_watched_dirty in Hwd.
+        assert (existsb (fun i => fmem (witem_file A i) (dirty w) && live_has A w (witem_file A i)) l = true); [|congruence].
+        apply existsb_exists. exists i. split; [exact Hi|]. apply fmem_in in Hdty. rewrite Hdty. unfold live_has, ahas. rewrite E. reflexivity. }
+      revert Hlc Hun Hst. rewrite (act_watched_eq w l Hl Hne). cbn zeta. cbn [fst snd]. intros Hlc Hun Hst.
+      set (dk' := items_disk (disk w) l) in *.
+      set (pc := handle_events A fx dk' (pj (sv w)) (map (witem_ev A) l)) in *.
       apply stale_ref_false in Hst. cbn [sv pj] in Hst.
-      unfold k_empty_shortcut in Hemp. cbn [existsb] in Hemp. rewrite orb_false_r in Hemp.
-      apply (watched_common w v (item_disk (disk w) i) pc I); [| |exact Hlc|exact Hun].
-      + destruct i as [f0 t|f0 t|f0]; cbn [witem_file item_disk witem_ev] in *; subst f.
-        * apply (he_created A fx HA (disk w) (pj (sv w)) f0 t (i_good _ _ I) Hd Hemp). exact Hst.
-        * unfold conf_action_full in Hconf. cbn [map witem_file forallb] in Hconf. rewrite !andb_true_r in Hconf.
-          apply andb_true_iff in Hconf as [_ Hconf].
-          assert (Hpres : aget (disk w) f0 <> None) by (unfold ahas in Hconf; destruct (aget (disk w) f0); [discriminate|discriminate]).
-          apply (he_changed A fx HA (disk w) (pj (sv w)) f0 t (i_good _ _ I) Hd Hpres Hemp). exact Hst.
-        * apply (he_deleted A fx HA (disk w) (pj (sv w)) f0 (i_good _ _ I) Hd). exact Hst.
-      + destruct i as [f0 t|f0 t|f0]; cbn [witem_file item_disk witem_ev] in *; subst f.
-        * intros Hc. pose proof (proj1 (he_created A fx HA (disk w) (pj (sv w)) f0 t (i_good _ _ I) Hd Hemp)) as H1.
-          fold pc in H1. congruence.
-        * unfold conf_action_full in Hconf. cbn [map witem_file forallb] in Hconf. rewrite !andb_true_r in Hconf.
-          apply andb_true_iff in Hconf as [_ Hconf].
-          assert (Hpres : aget (disk w) f0 <> None) by (unfold ahas in Hconf; destruct (aget (disk w) f0); [discriminate|discriminate]).
-          apply (he_changed A fx HA (disk w) (pj (sv w)) f0 t (i_good _ _ I) Hd Hpres Hemp).
-        * intros Hc. pose proof (proj1 (he_deleted A fx HA (disk w) (pj (sv w)) f0 (i_good _ _ I) Hd)) as H1.
-          fold pc in H1. congruence.
+      destruct (items_disk_spec l (disk w) Hnd) as [D1 D2]. fold dk' in D1, D2.
+      assert (B : batch_ok A (disk w) dk' (map (witem_ev A) l)).
+      { constructor.
+        - rewrite map_fst_ev. exact Hnd.
+        - intros f k Hin. destruct (in_ev_item l f k Hin) as [i [Hi [<- _]]]. apply Hdir. exact Hi.
+        - intros g Hg. rewrite map_fst_ev in Hg. apply D1. exact Hg.
+        - intros f Hin. destruct (in_ev_item l f _ Hin) as [i [Hi [Hf [t Hit]]]]. rewrite <- Hf, (D2 _ Hi), Hit. discriminate.
+        - intros f Hin. destruct (in_ev_item l f _ Hin) as [i [Hi [Hf [t Hit]]]]. split.
+          + rewrite <- Hf, (D2 _ Hi), Hit. discriminate.
+          + rewrite forallb_forall in Hwm. specialize (Hwm _ Hi). rewrite Hit in Hwm. unfold ahas in Hwm.
+            destruct (aget (disk w) f); [discriminate|discriminate].
+        - intros f Hin. destruct (in_ev_item l f _ Hin) as [i [Hi [Hf Hit]]]. rewrite <- Hf, (D2 _ Hi), Hit. reflexivity. }
+      assert (Hemp' : forall f k t, In (f, k) (map (witem_ev A) l) -> aget dk' f = Some t -> empty_hit_p A fx (pj (sv w)) f t = false).
+      { intros f k t Hin Hd. destruct (in_ev_item l f k Hin) as [i [Hi [Hf Hk]]]. subst f.
+        rewrite (D2 _ Hi) in Hd. unfold k_empty_shortcut in Hemp.
+        destruct (empty_hit_p A fx (pj (sv w)) (witem_file A i) t) eqn:E; [|reflexivity]. exfalso.
+        assert (existsb (fun i => match i with WC f t | WM f t => empty_hit A fx w f t | WD _ => false end) l = true); [|congruence].
+        apply existsb_exists. exists i. split; [exact Hi|]. destruct i as [f0 t0|f0 t0|f0]; cbn [item_value witem_file] in *.
+        - injection Hd as ->. exact E.
+        - injection Hd as ->. exact E.
+        - discriminate. }
+      pose proof (he_batch A fx HA (disk w) dk' (pj (sv w)) (map (witem_ev A) l) (i_good _ _ I) B Hemp') as HE.
+      cbn zeta in HE. fold pc in HE. destruct HE as [HE1 HE2].
+      apply (watched_common w v dk' pc I); [apply HE1; exact Hst|exact HE2|exact Hlc|exact Hun].
   Qed.
 
   (* ---------- one conformant, class-free action keeps the invariant ---------- *)
@@ -661,4 +751,16 @@ Proof. intros H. unfold ecount. apply Permutation_length. apply perm_filter. exa
 Lemma perm_eqb_of_perm a b : Permutation a b -> perm_eqb a b = true.
 Proof.
   intros H. unfold perm_eqb. apply forallb_forall. intros e _. apply Nat.eqb_eq. apply ecount_perm. exact H.
+Qed.
+
+(* the class predicates of repaired findings are constantly false under the deployed flags *)
+Lemma repaired_classes_gone (A : analysis) (w w' : world A) (a : action A) :
+  k_live_cleared A deployed w w' = false /\ k_close_revert A deployed w a = false /\
+  k_empty_shortcut A deployed w a = false.
+Proof.
+  split; [reflexivity|]. split; [reflexivity|].
+  unfold k_empty_shortcut, empty_hit, empty_hit_p. cbn [deployed fix_empty negb andb].
+  destruct a as [f|f t|f|f|l|e]; try reflexivity.
+  - destruct (aget (ebuf w) f); reflexivity.
+  - induction l as [|i l IH]; [reflexivity|]. cbn [existsb]. rewrite IH. destruct i; reflexivity.
 Qed.
